@@ -281,3 +281,59 @@ def _mk(do_prepend, marker):
 seek_plain, seek_marker = _mk(False, False), _mk(False, True)
 prep_plain, prep_marker = _mk(True, False), _mk(True, True)
 CONTRACTS = [seek_plain, seek_marker, prep_plain, prep_marker]
+
+
+# ---- P2: DelimitedBuffer.from_raw_buffer discharges X1 for the delimited formats --------------------------------------
+def _D():
+    from bionumpy.io.delimited_buffers import DelimitedBuffer
+    return DelimitedBuffer
+
+
+def _setup_frb(ctx):
+    st = St()
+    st.N = z3.Int("chunk_len")
+    st.c = z3.Function("c", z3.IntSort(), z3.IntSort())
+    st.chunk = SArr.fresh(st.N, lambda p: st.c(I(p)))
+    st.args = [_D(), st.chunk]
+    st.rec = {}
+    return st
+
+
+def _gbe(st_holder):
+    def handler(ip, args, kwargs, lineno):
+        st = st_holder["st"]
+        st.rec["data"], st.rec["delimiters"], st.rec["n_cols"] = args[1], args[2], args[3]
+        return Opaque("buffer extractor")
+    return handler
+
+
+_h2 = {}
+
+
+def _setup_frb2(ctx):
+    st = _setup_frb(ctx)
+    _h2["st"] = st
+    return st
+
+
+def _ens_frb(ctx, st, ret):
+    data, delim = st.rec["data"], st.rec["delimiters"]
+    size = data.length
+    return [("X1: 1 <= size <= |chunk|", And(I(size) >= 1, I(size) <= st.N)),
+            ("X1: data handed on is chunk[:size]", Forall(lambda p: Implies(in_range(p, size), data.at(p) == st.c(p)))),
+            ("cut.ends.at.a.newline", st.c(I(size) - 1) == 10),
+            ("cut.is.the.LAST.newline", Forall(lambda p: Implies(And(I(p) >= I(size), I(p) < st.N), st.c(p) != 10))),
+            ("delimiter.table.starts.with.-1.and.ends.at.the.cut", And(delim.at(0) == -1, delim.at(I(delim.length) - 1) == I(size) - 1)),
+            ("buffer.keeps.the.extractor", isinstance(ret.get("_buffer_extractor"), Opaque))]
+
+
+from_raw_buffer = Contract("C01.DelimitedBuffer.from_raw_buffer", target=lambda: _D().from_raw_buffer.__func__, setup=_setup_frb2,
+                           requires=lambda ctx, st: [st.N >= 0, Forall(lambda p: And(st.c(p) >= 0, st.c(p) < 256), triggers=[st.c], name="bytes")],
+                           ensures=_ens_frb,
+                           raises={"reraise": lambda ctx, st: [("only.when.there.is.no.newline", Forall(lambda p: Implies(in_range(p, st.N), st.c(p) != 10)))]},
+                           callees={"bionumpy.io.delimited_buffers.DelimitedBuffer._get_buffer_extractor": _gbe(_h2)},
+                           dropped=["docstring", "logging.warning call", "commented-out return"],
+                           decorators={"@classmethod": "receiver is the class"},
+                           canaries=[("cut one short", "size = delimiters[entry_ends[-1]] + 1", "size = delimiters[entry_ends[-1]]"),
+                                     ("first newline instead of last", "size = delimiters[entry_ends[-1]] + 1", "size = delimiters[entry_ends[0]] + 1")])
+CONTRACTS.append(from_raw_buffer)
